@@ -394,9 +394,47 @@ func c05KEK(c *eng.Ctx, k *kvAnalysis) {
 	}
 	// tink.AEAD parameters in package db flow only to Read/WriteWithAssociatedData, to constructor calls, and to kv.kekCipher
 	isAEAD := func(t types.Type) bool { return eng.IsNamed(t, "github.com/tink-crypto/tink-go/v2/tink", "AEAD") }
+	// (which AEAD parameters carry the KEK: those of the exported entry points,
+	// and every parameter one of them is handed on to)
+	isKEK := map[*ssa.Parameter]bool{}
+	var work []*ssa.Parameter
+	for _, f := range p.PkgFuncs("db") {
+		if f.Object() == nil || !f.Object().Exported() {
+			continue
+		}
+		for _, prm := range f.Params {
+			if isAEAD(prm.Type()) && !isKEK[prm] {
+				isKEK[prm] = true
+				work = append(work, prm)
+			}
+		}
+	}
+	for len(work) > 0 {
+		prm := work[0]
+		work = work[1:]
+		if prm.Referrers() == nil {
+			continue
+		}
+		for _, r := range *prm.Referrers() {
+			ci, isCall := r.(ssa.CallInstruction)
+			if !isCall {
+				continue
+			}
+			cal := ci.Common().StaticCallee()
+			if cal == nil || eng.FuncPkg(cal) != p.TypesPkg("db") {
+				continue
+			}
+			for i, a := range ci.Common().Args {
+				if a == ssa.Value(prm) && i < len(cal.Params) && !isKEK[cal.Params[i]] {
+					isKEK[cal.Params[i]] = true
+					work = append(work, cal.Params[i])
+				}
+			}
+		}
+	}
 	for _, f := range p.PkgFuncs("db") {
 		for _, prm := range f.Params {
-			if !isAEAD(prm.Type()) {
+			if !isAEAD(prm.Type()) || !isKEK[prm] {
 				continue
 			}
 			refs := prm.Referrers()
@@ -455,4 +493,21 @@ func c05KEK(c *eng.Ctx, k *kvAnalysis) {
 		}
 	}
 	_ = open
+	// ... and the server around the database never invokes an AEAD at all
+	// (it has no business with the access key once db.Open has returned: a
+	// probe of the key would make a running server depend on the key service)
+	nS, nBad := 0, 0
+	for _, f := range p.PkgFuncs("server") {
+		nS++
+		eng.Instrs(f, func(in ssa.Instruction) {
+			call, ok := in.(ssa.CallInstruction)
+			if ok && call.Common().IsInvoke() && isAEAD(call.Common().Value.Type()) {
+				nBad++
+				c.Bad("R-C05-6", f, in.Pos(), "AEAD use in the server: "+eng.CallStr(call.Common()), "a running server encrypts/decrypts only with the data key inside package db (the key-encryption key is used by db.Open alone)", "direct invocation in "+eng.FName(f))
+			}
+		})
+	}
+	if nS > 0 && nBad == 0 {
+		c.Ok("R-C05-6", nil, 0, "AEAD invocations in package server", "none")
+	}
 }
